@@ -231,7 +231,10 @@ def _worker(args):
                 if other == O.DEFAULT_MODE:
                     other = "RoundUp"
                 h = len(reqs) // 2
-                reqs = reqs[:h] + ["mode " + other] + reqs[h:] + ["mode " + O.DEFAULT_MODE]
+                if (shard + batch) % 2:
+                    reqs = ["mode " + other] + reqs[:h] + ["mode " + O.DEFAULT_MODE] + reqs[h:]
+                else:
+                    reqs = reqs[:h] + ["mode " + other] + reqs[h:] + ["mode " + O.DEFAULT_MODE]
             reqs = reqs + ["counts"]
             reqfile = os.path.join(wdir, "s%d.req" % shard)
             with open(reqfile, "w") as f:
